@@ -509,6 +509,8 @@ func (s *client) GetVBucketSeqNos(awareCollection bool) (*wrapper.ConcurrentSwis
 
 					opm := NewAsyncOp(ctx)
 
+					ch := make(chan error, 1)
+
 					opts := gocbcore.GetVbucketSeqnoOptions{}
 					if hasCollectionSupport {
 						opts.FilterOptions = &gocbcore.GetVbucketSeqnoFilterOptions{
@@ -526,12 +528,20 @@ func (s *client) GetVBucketSeqNos(awareCollection bool) (*wrapper.ConcurrentSwis
 							}
 
 							opm.Resolve()
+
+							ch <- err
 						},
 					)
 					if err != nil {
 						return err
 					}
-					return opm.Wait(op, err)
+
+					err = opm.Wait(op, err)
+					if err != nil {
+						return err
+					}
+
+					return <-ch
 				}
 			}(i, j))
 		}
